@@ -109,6 +109,8 @@ LIB: Dict[str, Dict[str, Any]] = {
     "VInitFaultOp": dict(kind="operation", params=[], inp="Float", out="Float", fn=lambda d: d),
     "VArrayDefaultOp": dict(kind="operation", params=[("gain", 1.0)], inp="Float", out="Float", fn=lambda d, gain: _must_float(d * gain * 3.0)),
     "VArrayDefaultProbe": dict(kind="probe", params=[], inp="Float", fn=lambda d: d * 2.0),
+    # referenced as module:Class; the module also defines another FloatSquareOperation which must stay unreachable
+    "verif.lib.shadow:VShadowOnly": dict(kind="operation", params=[], inp="Float", out="Float", fn=lambda d: d),
     # not a component at all: a processor reference nothing resolves (configuration error at node construction)
     "NoSuchProcessorXYZ": dict(kind="operation", params=[], inp="Float", out="Float", fn=lambda d: d),
     "VNestedParamOp": dict(kind="operation", params=[("opts", NODEF)], inp="Float", out="Float",
